@@ -277,6 +277,10 @@ func (pathTargets *pathSubqueryMetadata) extractKeys(node interface{}, path []Pa
 	}
 
 	if len(path) == 0 {
+		if node == nil {
+			// A nullable object that is null has no fields to fetch from other services.
+			return nil
+		}
 		obj, ok := node.(map[string]interface{})
 		if !ok {
 			return fmt.Errorf("not an object: %v", obj)
